@@ -121,6 +121,18 @@ def rule_printfilter(P) -> RuleResult:
                 if muts:
                     ok = False
                     res.fail(fi.fq, 'print:order', f'the list of directives is modified ({muts[0][2]}) before printing', loc(fi))
+                # numbers are printed with their own digits: the printer must not be given the display context inferred from the
+                # ledger, which rounds every number to the most common precision of its currency (the output would not load back to
+                # equal directives); a context made for the purpose (with the commas option copied) or none is fine
+                if len(sink) == 1:
+                    ctx_arg = sink[0][2][1] if len(sink[0][2]) > 1 else dict(sink[0][3]).get('dcontext')
+                    ledger_ctx = 'options[' + repr('dcontext') + ']'
+                    fresh = isinstance(ctx_arg, T) and ctx_arg.op in ('call', 'new') and str(ctx_arg.args[0]).split('.')[-1] == 'DisplayContext'
+                    if ctx_arg is not None and not fresh and ledger_ctx in show(ctx_arg):
+                        ok = False
+                        res.fail(fi.fq, 'print:precision', f'PRINT hands the ledger\'s own display context (`{show(ctx_arg)[:80]}`) to the printer: it '
+                                 f'rounds numbers to the most common precision of their currency, so the printed directives do not load back '
+                                 f'to equal ones', loc(fi))
     if ok:
         res.ok({'function': fi.fq, 'gate_cases': 4, 'collects': 'row.entry', 'sink': 'printer.print_entries'})
     return res
